@@ -38,6 +38,16 @@ ASSUMPTIONS = [
 
 @st.composite
 def _case(draw, tier):
+    if prob(draw, 0.15):
+        # Part L: a while-loop whose first body node fails in iteration t >= 2 (errors collected): the FAILED result holds exactly
+        # what the iterations before it completed
+        k = draw(st.integers(1, 3))
+        step = draw(st.sampled_from([1, 2]))
+        start = draw(st.integers(0, 3))
+        iters = draw(st.integers(2, 6))
+        return {"part": "L", "loop": {"k": k, "form": "while", "gate": draw(st.sampled_from(["ifelse", "route"])), "exit": "END", "dopen": draw(st.booleans()), "limit": start + iters * step,
+                                      "step": step, "start": start, "limit_input": draw(st.booleans()), "step_input": False, "acc": False, "nested": False, "limit_off": 0, "entry": 0},
+                "t": draw(st.integers(2, iters)), "order": draw(st.lists(st.integers(0, 9), min_size=10, max_size=10)), "sched": draw(st.lists(st.integers(0, 5), max_size=30))}
     topo = draw(gen.g1_nodes(3, 7, p_const=0.15))  # incl. completed outputs whose value is None / falsy
     depth = draw(st.sampled_from([0, 0, 1, 2, 3]))
     if depth:
@@ -56,7 +66,9 @@ def _case(draw, tier):
             "pair_pick": draw(st.integers(0, 20)),
             # the class of the exception the node body raises: a custom class, or a subclass of a built-in one that library code
             # might itself catch (TypeError from a call, KeyError from a lookup, ...)
-            "fail_exc": draw(st.sampled_from(["plain", "plain", "type", "key", "value", "runtime"]))}
+            "fail_exc": draw(st.sampled_from(["plain", "plain", "type", "key", "value", "runtime"])),
+            # a nested graph that PAUSES at an interrupt in the first superstep, listed after a failing source node of that step
+            "pausing_sibling": prob(draw, 0.25)}
 
 
 def strategy(tier):
@@ -175,12 +187,48 @@ def _check_failed(tag, case, out, ctx, failing, selected, env, args, values, mod
                     raise Violation("c11.earlier_value_wrong", f"[{tag}] {o}={J(out.values[o])} expected {J(env[o])}")
 
 
+def _part_loop(case, ev):
+    from ..loops import eval_loop, loop_graph_spec, loop_values
+
+    L, t = case["loop"], case["t"]
+    step, start, k = L["step"], L["start"], L["k"]
+    v = start + (t - 1) * step  # value of i when iteration t begins
+    gspec = loop_graph_spec(L, case["order"])
+    gspec = {**gspec, "nodes": [({**n, "fail": {"arg_in": [v]}} if n["name"] == "b0" else n) for n in gspec["nodes"]]}
+    vals = loop_values(L)
+    want = {"i": v}
+    for j in range(k - 1):
+        want[f"t{j}"] = ("t", j, v - step)  # produced in iteration t-1; iteration t got no further than its failing first node
+    for runner in ("sync", "async", "sched"):
+        ctx = Ctx()
+        g = make_graph(ctx, gspec, "async" if runner == "sched" else "sync")
+        kw = {"entrypoint": "b0"} if len(g.inputs.entrypoints) > 1 and "b0" in g.inputs.entrypoints else {}
+        if runner == "sync":
+            out = run_sync(g, vals, error_handling="continue", **kw)
+        elif runner == "async":
+            out = run_async(g, vals, error_handling="continue", **kw)
+        else:
+            out, _ = run_scheduled(ctx, g, vals, case["sched"], error_handling="continue", **kw)
+        tag = f"{runner} continue, loop k={k} gate={L['gate']}: b0 fails in iteration {t} (i={v})"
+        if out.status != "failed" or out.error is not ctx.injected.get("b0"):
+            raise Violation("c11.not_failed_result", f"[{tag}] gave {out.brief()}", got=out.status, loop=True)
+        got = {k_: v_ for k_, v_ in out.values.items() if k_ != "limit"}
+        if got != want:
+            diff = {k_: (J(got.get(k_, "<absent>")), J(want.get(k_, "<absent>"))) for k_ in set(got) | set(want) if got.get(k_, "<absent>") != want.get(k_, "<absent>")}
+            raise Violation("c11.loop_partial_values", f"[{tag}] the iterations before it completed {J(want)}; the FAILED result holds (got, expected) {diff}", missing=any(k_ not in got for k_ in want), loop=True)
+    ev.case(case, True, ["part:L", f"k:{k}", "failing_iteration>=2"])
+
+
 def check_case(case, ev):
+    if case.get("part") == "L":
+        return _part_loop(case, ev)
     topo, nodes = case["topo"], case["nodes"]
     labels = {f"depth:{case['depth']}"}
     required, optional, _ = ref.input_spec(topo, {}, None, drop=case["inactive"])
     values = {p: ("in", p, 0) for p in required}
     env, args = ref.eval_dag(topo, values, {})
+    values_b = {p: ("in", p, 1) for p in required}
+    env_b, args_b = ref.eval_dag(topo, values_b, {})
     func_names = [n["name"] for n in topo if n["name"] not in case["inactive"] and args.get(n["name"]) is not None]
     lvl = _level(nodes, topo)
     depth = ref.depth(lvl)
@@ -236,6 +284,33 @@ def check_case(case, ev):
                     if mode == "continue" and out.status == "raised":
                         raise Violation("c11.continue_raised", f"[{tag} select={use_sel}] continue mode raised {type(out.error).__name__}: {str(out.error)[:200]}", got=type(out.error).__name__)
                 _check_failed(tag, case, out, ctx, failing, use_sel.get("select"), env, args, values, mode, ev)
+                if mode == "continue" and runner in ("sync", "async"):
+                    # the SAME graph object run again with other input values: the same exception object is raised again; what the
+                    # second result carries is the second run's work
+                    ctx.reset()
+                    out2 = (run_sync if runner == "sync" else run_async)(g, values_b, **kw, **use_sel)
+                    _check_failed(tag + " [second run of the same graph, other values]", case, out2, ctx, failing, use_sel.get("select"), env_b, args_b, values_b, mode, ev)
+        if case.get("pausing_sibling") and len(failing) == 1 and depth[lvl_of[failing[0]]] == 0 and lvl_of[failing[0]] == failing[0] and not flat_pred[failing[0]]:
+            # a failing SOURCE node listed before a nested graph that pauses at an interrupt in the same (first) superstep: the failure is
+            # the outcome (it comes first in the step), it is not replaced by the pause
+            pw = {"k": "graph", "name": "pausew", "graph": {"name": "pausew", "nodes": [{"k": "interrupt", "name": "ask", "params": ["pq"], "defaults": {}, "outs": ["pans"], "mode": "pause", "answer": ["unused"]}]}}
+            others = [n for n in fspec_nodes if n["name"] != failing[0]]
+            fnode = next(n for n in fspec_nodes if n["name"] == failing[0])
+            for mode in ("raise", "continue"):
+                ctx = Ctx()
+                try:
+                    g = make_graph(ctx, {"nodes": [fnode, pw] + others}, "sync")
+                except Exception as e:  # noqa: BLE001
+                    ev.discard("pausing_sibling_construct:" + type(e).__name__)
+                    break
+                out = run_async(g, {**values, "pq": ("in", "pq", 0)}, error_handling=mode)
+                tagp = f"async {mode} failing={failing} next to a nested graph that pauses in the same superstep"
+                obj = ctx.injected.get(failing[0])
+                if mode == "raise" and not (out.status == "raised" and out.error is obj):
+                    raise Violation("c11.failure_replaced_by_pause", f"[{tagp}] gave {out.brief()} instead of raising the node's exception", got=out.status, mode=mode)
+                if mode == "continue" and not (out.status == "failed" and out.error is obj):
+                    raise Violation("c11.failure_replaced_by_pause", f"[{tagp}] gave {out.brief()} instead of a FAILED result carrying the node's exception", got=out.status, mode=mode)
+                labels.add("failing_source_next_to_pausing_nested_graph")
         ev.count("fault_sites")
         # ---- through map
         if mapped is not None and len(failing) == 1 and mapped["param"] in values:
@@ -275,6 +350,13 @@ def check_case(case, ev):
                         if mode == "raise":
                             if out.status != "raised" or out.error is not ctx.injected.get(failing[0]):
                                 raise Violation("c11.map_error", f"[{tag}] gave {out.brief()} instead of raising the node's exception object", got=out.status)
+                            # the mapping node raises, the OUTER run collects errors: the wrapper is the failing node at that level and
+                            # it is the only one, so nothing has completed there
+                            ctx.reset()
+                            oc = (run_sync if runner == "sync" else run_async)(g, mv, error_handling="continue")
+                            if oc.status != "failed" or oc.error is not ctx.injected.get(failing[0]) or oc.values:
+                                raise Violation("c11.map_outer_continue", f"[{tag}, outer run error_handling='continue'] gave {oc.brief()}; expected FAILED with the node's exception object and no values "
+                                                "(values of the inner item runs are not values of the outer graph)", leaked=bool(oc.values))
                         else:
                             if out.status != "completed":
                                 raise Violation("c11.map_continue_failed", f"[{tag}] mapping node in continue mode gave {out.brief()}")
